@@ -106,8 +106,9 @@ def mutate(obj, kind):
     """Edit the copy in a way that must stay invisible to the original."""
     if isinstance(obj, lasio.LASFile):
         if kind == "field":
-            obj.well["STRT"].descr = "mutated-descr" if "STRT" in obj.well else None
-            if "STRT" not in obj.well:
+            if "STRT" in obj.well:
+                obj.well["STRT"].descr = "mutated-descr"
+            else:
                 obj.well.append(HeaderItem("STRT", descr="mutated-descr"))
         elif kind == "array":
             if len(obj.curves) and isinstance(obj.curves[-1].data, np.ndarray) and len(obj.curves[-1].data):
